@@ -1339,12 +1339,10 @@ class Collocator:
         if self.index is None:
             return False
 
-        try:
-            return np.allclose(lat, self.index.lat) \
-                   & np.allclose(lon, self.index.lon)
-        except ValueError:
-            # The shapes are different
-            return False
+        # The index can only be reused for exactly the same points (points
+        # that are merely close to the indexed ones have different neighbours):
+        return np.array_equal(lat, self.index.lat) \
+            and np.array_equal(lon, self.index.lon)
 
     def _choose_points_to_build_index(self, primary, secondary):
         """Choose which points should be used for tree building
